@@ -663,6 +663,19 @@ def stream_len(it, st, s):
         return ('isatsub', stream_len(it, st, s.parts[0]), s.parts[1])
     if k == 'opaque':
         return ('slen', s.parts[0])
+    if k == 'range':
+        a, b = s.parts
+        if a[0] == 'ic' and b[0] == 'ic':
+            return iconst(max(0, b[1] - a[1]))
+        return ('isatsub', b, a)
+    if k == 'windows':
+        sl, w = s.parts
+        return ('isatsub', slice_len(it, sl), it.isub(w, iconst(1)))
+    if k == 'chunks':
+        sl, w, exact = s.parts
+        return ('idiv', slice_len(it, sl), w)
+    if k == 'scan':
+        return stream_len(it, st, s.parts[0])
     raise Unsupported('length of stream %s' % k)
 
 
@@ -680,6 +693,8 @@ def stream_nonempty(it, st, s):
         return mk_or(stream_nonempty(it, st, s.parts[0]), stream_nonempty(it, st, s.parts[1]))
     if k == 'opaque':
         return ('pred', 'has_next', s.parts[0])
+    if k == 'range':
+        return mk_icmp('lt', s.parts[0], s.parts[1])
     return mk_icmp('lt', iconst(0), stream_len(it, st, s))
 
 
@@ -744,6 +759,25 @@ def stream_elem(ctx, s, i):
         return it.call_closure(ctx, clos, [e])
     if k == 'opaque':
         return Opaque(('selem', s.parts[0], i))
+    if k == 'range':
+        return it.iadd(s.parts[0], i)
+    if k == 'windows':
+        sl, w = s.parts
+        a = it.iadd(sl.start, i)
+        return SliceRef(sl.root, sl.path, a, it.iadd(a, w), sl.mut)
+    if k == 'chunks':
+        sl, w, exact = s.parts
+        off = ('i*', w, i) if not (w[0] == 'ic' and i[0] == 'ic') else iconst(w[1] * i[1])
+        a = it.iadd(sl.start, off)
+        return SliceRef(sl.root, sl.path, a, it.iadd(a, w), sl.mut)
+    if k == 'scan':
+        inner, state_cell, clos = s.parts
+        e = stream_elem(ctx, inner, i)
+        r = it.call_closure(ctx, clos, [state_cell, e])
+        g, payload = _opt_parts(ctx, r)
+        if g != TRUE:
+            raise Unsupported('Iterator::scan whose closure may return None')
+        return payload
     raise Unsupported('element of stream %s' % k)
 
 
@@ -773,6 +807,14 @@ def stream_tail(it, st, s):
         return Stream('skip', (stream_tail(it, st, s.parts[0]), s.parts[1]))
     if k == 'opaque':
         return Stream('opaque', (('snext', s.parts[0]),))
+    if k == 'range':
+        return Stream('range', (it.iadd(s.parts[0], one), s.parts[1]))
+    if k == 'windows':
+        sl, w = s.parts
+        return Stream('windows', (SliceRef(sl.root, sl.path, it.iadd(sl.start, one), sl.end, sl.mut), w))
+    if k == 'chunks':
+        sl, w, exact = s.parts
+        return Stream('chunks', (SliceRef(sl.root, sl.path, it.iadd(sl.start, w), sl.end, sl.mut), w, exact))
     raise Unsupported('tail of stream %s' % k)
 
 
@@ -806,6 +848,8 @@ def to_stream(ctx, v):
         return Stream('src', (SliceRef(root, (), iconst(0), iconst(len(v.elems))), 'val'))
     if isinstance(v, Opaque):
         return Stream('opaque', (('into_iter', v.term),))
+    if isinstance(v, Struct) and v.path.split('::')[-1] == 'Range' and len(v.fields) == 2:
+        return Stream('range', (v.fields[0], v.fields[1]))
     if isinstance(v, Enum) and v.path == OPTION:
         raise Unsupported('Option as iterator')
     raise Unsupported('into_iter of %s' % type(v).__name__)
@@ -1255,3 +1299,82 @@ def _(ctx):
     it.events.append({'kind': 'arbitrary', 'ty': ty_str(self_ty), 'name': name, 'payload': payload,
                       'fn': ctx.frame.f['path'] if ctx.frame else None, 'line': ctx.line})
     return Enum(RESULT, ((okc, 0, (payload,)), (mk_not(okc), 1, (Opaque(('arb_err', name)),))))
+
+
+@model('<[T]>::windows')
+def _(ctx):
+    return Stream('windows', (deref_seq(ctx, ctx.args[0]), ctx.args[1]))
+
+
+@model('<[T]>::chunks_exact', '<[T]>::chunks_exact_mut', '<[T]>::chunks', '<[T]>::chunks_mut')
+def _(ctx):
+    exact = 'exact' in ctx.fn['def']['path']
+    return Stream('chunks', (deref_seq(ctx, ctx.args[0]), ctx.args[1], exact))
+
+
+@model('<[T]>::partition_point')
+def _(ctx):
+    """index of the first element for which the predicate is false (len if none)"""
+    it = ctx.interp
+    s = Stream('src', (deref_seq(ctx, ctx.args[0]), 'ref'))
+    st0 = ctx.state
+    ivar, r, sub = _closure_on_elem(ctx, s, ctx.args[1])
+    ctx.state = State(sub.state.store, st0.guard, st0.facts)
+    if not isinstance(r, tuple):
+        raise Unsupported('partition_point predicate is not a boolean term')
+    P = mk_not(r)
+    sterm = it.abstract(st0, s)
+    found = ('found', sterm, ivar, P)
+    idx = ('firstidx', sterm, ivar, P)
+    it.events.append({'kind': 'search', 'op': 'partition_point', 'fn': ctx.frame.f['path'] if ctx.frame else None,
+                      'line': ctx.line, 'stream': s, 'base': s, 'rev': False, 'ivar': ivar, 'pred': P,
+                      'idx': idx, 'found': found})
+    return mk_sel(found, idx, stream_len(it, st0, s))
+
+
+@model('std::iter::Iterator::scan')
+def _(ctx):
+    it = ctx.interp
+    st_cell = Ref(it.alloc(ctx.state, ctx.args[1], 'scanst'), (), True)
+    cl_cell = Ref(it.alloc(ctx.state, ctx.args[2], 'clos'), (), True)
+    return Stream('scan', (_stream_arg(ctx, ctx.args[0]), st_cell, cl_cell))
+
+
+def _filter_in_place(kind):
+    def f(ctx):
+        it = ctx.interp
+        r = ctx.args[0]
+        v = _vec_of(ctx, r)
+        it.events.append({'kind': kind, 'fn': ctx.frame.f['path'] if ctx.frame else None, 'line': ctx.line, 'seq': v.seq})
+        it.write(ctx.state, r.root, r.path, VecV(SeqFilter(v.seq, kind, it.abstract(ctx.state, ctx.args[1]))))
+        return Tup(())
+    return f
+
+
+MODELS['<std::vec::Vec<T, A>>::retain'] = _filter_in_place('retain')
+MODELS['<std::vec::Vec<T, A>>::retain_mut'] = _filter_in_place('retain')
+MODELS['<std::vec::Vec<T, A>>::dedup_by'] = _filter_in_place('dedup_by')
+MODELS['<std::vec::Vec<T, A>>::dedup_by_key'] = _filter_in_place('dedup_by_key')
+
+
+@model('<std::vec::Vec<T, A>>::dedup')
+def _(ctx):
+    it = ctx.interp
+    r = ctx.args[0]
+    v = _vec_of(ctx, r)
+    it.write(ctx.state, r.root, r.path, VecV(SeqFilter(v.seq, 'dedup', ('eq',))))
+    return Tup(())
+
+
+@model('<std::vec::Vec<T, A>>::truncate')
+def _(ctx):
+    it = ctx.interp
+    r = ctx.args[0]
+    v = _vec_of(ctx, r)
+    it.write(ctx.state, r.root, r.path, VecV(SeqFilter(v.seq, 'truncate', ctx.args[1])))
+    return Tup(())
+
+
+@model('<std::vec::Vec<T, A>>::first', '<std::vec::Vec<T, A>>::last')
+def _(ctx):
+    raise Unsupported('Vec::first/last are slice methods')
